@@ -112,6 +112,24 @@ Theorem C16_cert_list_loop_shape : forall k, (1 <= k <= 8)%nat -> forall fuel bo
 Proof. exact cert_list_loop_shape. Qed.
 Print Assumptions C16_cert_list_loop_shape.
 
+(* canonical: ReadMerkleTreeLeaf accepts only RFC 6962 encodings (what it returns re-encodes
+   to exactly the bytes it consumed) *)
+Theorem C16_leaf_canonical : forall bs l rest,
+  bytes_ok bs -> read_merkle_tree_leaf bs = Some (l, rest) ->
+  exists enc, rfc_leaf l = Some enc /\ bs = enc ++ rest /\
+              lf_version l = 0 /\ lf_type l = 0 /\ canonical_entry (lf_entry l).
+Proof. exact leaf_canonical. Qed.
+Print Assumptions C16_leaf_canonical.
+
+(* the chain reader accepts the RFC 6962 chain encoding and, leniently, a list body that ends
+   with 1 or 2 stray bytes (tail = [] is exactly rfc_chain); nothing else *)
+Theorem C16_cert_list_shape : forall bs l rest,
+  bytes_ok bs -> read_asn1_cert_list bs 3 3 = Some (l, rest) ->
+  exists items tail e, rfc_items 3 l = Some items /\ (length tail < 3)%nat /\
+                       vec_encode 3 (items ++ tail) = Some e /\ bs = e ++ rest.
+Proof. exact cert_list_shape. Qed.
+Print Assumptions C16_cert_list_shape.
+
 (* ---- signature inputs follow RFC 6962 byte for byte ---- *)
 Theorem C16_sct_input_is_rfc6962 : forall version ts l,
   sct_sig_input version ts l =
